@@ -820,7 +820,8 @@ func domAuth(env *Env) error {
 			h.oracleGroup()
 			h.oracleMultiGroup() // dom_auth_oracle_multi.go
 			h.taskGroup()
-			h.operatorMsgGroup() // dom_auth_opmsg.go: on whose record an admitted operator message lands
+			h.operatorMsgGroup()     // dom_auth_opmsg.go: on whose record an admitted operator message lands
+			h.discardedParamsGroup() // dom_auth_discard.go: params updates on dropped store branches, then the checks again (last: see there)
 			env.Report.Histories++
 			if hi == 0 {
 				env.Sample(strings.Join(h.hist[:min(len(h.hist), 12)], " ; "))
